@@ -12,7 +12,10 @@ func genGeneric(c *Ctx) { gen.CheckKinds(c.Run, c.Prog) }
 
 func genFormat(c *Ctx) {}
 
-func genMocks(c *Ctx) { gen.CheckNoGlobalWrites(c.Run, c.Prog, "G-FRAME/global-state") }
+func genMocks(c *Ctx) {
+	gen.CheckNoGlobalWrites(c.Run, c.Prog, "G-FRAME/global-state")
+	gen.CheckPure(c.Run, c.Prog, "G-PURE/render-helpers")
+}
 
 func genCompile(c *Ctx) {
 	gen.CheckKinds(c.Run, c.Prog)
